@@ -3,6 +3,7 @@ package main
 import (
 	"strings"
 	"sync"
+	"unicode"
 
 	"golang.org/x/text/unicode/norm"
 )
@@ -14,6 +15,8 @@ var (
 	preOnce       sync.Once
 	nfkdPreimages map[string][]string
 	nfkdSpaces    []string
+	highExpansion []string // code points whose NFKD form is much longer than their UTF-8 encoding
+	hanCompat     []string // Han-script code points that do decompose (compatibility ideographs, radicals)
 )
 
 func buildPreimages() {
@@ -33,6 +36,12 @@ func buildPreimages() {
 				nfkdPreimages[d] = append(nfkdPreimages[d], s)
 				if d == " " {
 					nfkdSpaces = append(nfkdSpaces, s)
+				}
+				if len(d) > 4*len(s) || len([]rune(d)) >= 5 {
+					highExpansion = append(highExpansion, s)
+				}
+				if unicode.Is(unicode.Han, r) {
+					hanCompat = append(hanCompat, s)
 				}
 			}
 		}
